@@ -24,6 +24,8 @@ pub enum Val {
     C(u16, u32),
     /// reference to entry number `.0` (insertion order) of the same store; stored as that entry's final position
     Ref(usize),
+    /// reference to entry number `.1` (insertion order) of ANOTHER store `.0`; stored as that entry's final position there
+    RefO(usize, usize),
 }
 
 impl Val {
@@ -34,6 +36,7 @@ impl Val {
             Val::A(v) => format!("a[{}]", util::brief(v)),
             Val::C(p, c) => format!("c{p}:{c}"),
             Val::Ref(r) => format!("ref#{r}"),
+            Val::RefO(st, r) => format!("ref#{st}:{r}"),
         }
     }
     /// order "as the reader compares": integers numerically, arrays on the whole byte string
@@ -72,6 +75,10 @@ pub enum Col {
     Full,
     /// entry number (unique)
     Seq,
+    /// n-1-entry number: a sort on it reverses the insertion order
+    RevSeq,
+    /// references into another store (`.0`), spread over its entries (first, last, and in between)
+    RefOther(usize),
     /// entry number, but the last sixteenth of the entries repeat the values of earlier entries (never the first one):
     /// duplicates arriving after many distinct values
     SeqDup,
@@ -166,6 +173,8 @@ fn col_to_json(c: &Col) -> Value {
         Col::Width(w) => json!({"width": w}),
         Col::Full => json!("full"),
         Col::Seq => json!("seq"),
+        Col::RevSeq => json!("rev_seq"),
+        Col::RefOther(st) => json!({"ref_other": st}),
         Col::Arr { max, alpha } => json!({"arr": [max, alpha]}),
         Col::ArrAroundPrefix => json!("arr_prefix"),
         Col::ArrLen256 => json!("arr_len256"),
@@ -186,6 +195,7 @@ fn col_from_json(v: &Value) -> Col {
             "small" => Col::Small,
             "full" => Col::Full,
             "seq" => Col::Seq,
+            "rev_seq" => Col::RevSeq,
             "arr_prefix" => Col::ArrAroundPrefix,
             "arr_len256" => Col::ArrLen256,
             "arr_long" => Col::ArrLong,
@@ -201,6 +211,9 @@ fn col_from_json(v: &Value) -> Col {
     }
     if let Some(a) = v.get("content").and_then(|x| x.as_array()) {
         return Col::Content { packs: a[0].as_u64().unwrap_or(1) as u16, maxid: a[1].as_u64().unwrap_or(10) as u32 };
+    }
+    if let Some(st) = v.get("ref_other").and_then(|x| x.as_u64()) {
+        return Col::RefOther(st as usize);
     }
     if let Some(b) = v.get("tree").and_then(|x| x.as_u64()) {
         return Col::Tree(b as u8);
@@ -438,6 +451,21 @@ pub fn expand(case: &DirCase, si: usize) -> Vec<EntryModel> {
                 (PKind::UInt, Col::Small) => Val::U(rng.below(200)),
                 (PKind::UInt, Col::Width(w)) => Val::U(uint_of_width(&mut rng, *w)),
                 (PKind::UInt, Col::Seq) => Val::U(e as u64),
+                (PKind::UInt, Col::RevSeq) => Val::U((n - 1 - e) as u64),
+                (PKind::RefTo, Col::RefOther(ts)) => {
+                    let tn = case.stores.get(*ts).map(|s| s.n).unwrap_or(0);
+                    if tn == 0 || *ts == si {
+                        Val::U(0)
+                    } else {
+                        if case.seed % 2 == 1 {
+                            // only entries inserted early (low provisional positions; where they end up is the sort's business)
+                            Val::RefO(*ts, (e * 3) % tn.min(16))
+                        } else {
+                            // first, last, then spread
+                            Val::RefO(*ts, match e { 0 => 0, 1 => tn - 1, _ => (e.wrapping_mul(2_654_435_761)) % tn })
+                        }
+                    }
+                }
                 (PKind::UInt, _) => Val::U(if rng.chance(1, 3) { *rng.pick(&UBOUND) } else { rng.next() }),
                 (PKind::SInt, Col::Const) => Val::S(cval_s),
                 (PKind::SInt, Col::Small) => Val::S(rng.below(200) as i64 - 100),
@@ -625,6 +653,9 @@ pub fn build(case: &DirCase) -> Built {
     let mut entry_stores = vec![];
     let mut handles = vec![];
     let mut models = vec![];
+    // the vows of every store are created and bound first (an entry may refer to an entry of another store)
+    let mut all_vows: Vec<Vec<jbk::Vow<jbk::EntryIdx>>> = case.stores.iter().map(|st| (0..st.n).map(|_| Default::default()).collect()).collect();
+    let all_binds: Vec<Vec<jbk::Bound<jbk::EntryIdx>>> = all_vows.iter().map(|vs| vs.iter().map(|v| v.bind()).collect()).collect();
     for (si, st) in case.stores.iter().enumerate() {
         let sch = schema::Schema::<&'static str, &'static str>::new(
             schema::CommonProperties::new(st.common.iter().map(|p| make_prop(p, &value_stores)).collect()),
@@ -637,8 +668,8 @@ pub fn build(case: &DirCase) -> Built {
         let mut store: Box<EStore> = Box::new(jbk::creator::EntryStore::new(sch, Some(st.n)));
         let model = expand(case, si);
         // all vows are created and bound first, then moved into their entries
-        let vows: Vec<jbk::Vow<jbk::EntryIdx>> = (0..st.n).map(|_| Default::default()).collect();
-        let binds: Vec<jbk::Bound<jbk::EntryIdx>> = vows.iter().map(|v| v.bind()).collect();
+        let vows: Vec<jbk::Vow<jbk::EntryIdx>> = std::mem::take(&mut all_vows[si]);
+        let binds: &Vec<jbk::Bound<jbk::EntryIdx>> = &all_binds[si];
         let mut hs = Vec::with_capacity(st.n);
         for (e, vow) in vows.into_iter().enumerate() {
             let em = &model[e];
@@ -659,6 +690,7 @@ pub fn build(case: &DirCase) -> Built {
                         jbk::Value::SignedWord(f.into())
                     }
                     Val::Ref(t) => jbk::Value::UnsignedWord(binds[*t].clone().into()),
+                    Val::RefO(ts, t) => jbk::Value::UnsignedWord(all_binds[*ts][*t].clone().into()),
                 };
                 values.insert(name, v);
             }
